@@ -41,4 +41,71 @@ pub mod value {
     }
 }
 
+pub mod list_join {
+    //! the body of the built-in `List[String].join`, cut out of the library! block
+    use std::borrow::Borrow;
+    use std::marker::PhantomData;
+    use std::ops::Deref;
+
+    #[derive(Clone, Debug, PartialEq, Eq)]
+    pub struct RotoString(pub String);
+    impl Borrow<str> for RotoString {
+        fn borrow(&self) -> &str {
+            &self.0
+        }
+    }
+    impl Deref for RotoString {
+        type Target = str;
+        fn deref(&self) -> &str {
+            &self.0
+        }
+    }
+    impl From<String> for RotoString {
+        fn from(s: String) -> Self {
+            RotoString(s)
+        }
+    }
+    impl From<&str> for RotoString {
+        fn from(s: &str) -> Self {
+            RotoString(s.to_string())
+        }
+    }
+    pub struct ErasedList(pub Vec<RotoString>);
+    #[repr(transparent)]
+    pub struct List<T>(pub ErasedList, pub PhantomData<T>);
+    impl List<RotoString> {
+        pub fn to_vec(&self) -> Vec<RotoString> {
+            self.0 .0.clone()
+        }
+        pub fn len(&self) -> usize {
+            self.0 .0.len()
+        }
+        pub fn is_empty(&self) -> bool {
+            self.0 .0.is_empty()
+        }
+        pub fn iter(&self) -> std::vec::IntoIter<RotoString> {
+            self.0 .0.clone().into_iter()
+        }
+    }
+
+    impl IntoIterator for List<RotoString> {
+        type Item = RotoString;
+        type IntoIter = std::vec::IntoIter<RotoString>;
+        fn into_iter(self) -> Self::IntoIter {
+            self.0 .0.into_iter()
+        }
+    }
+    impl<'a> IntoIterator for &'a List<RotoString> {
+        type Item = RotoString;
+        type IntoIter = std::vec::IntoIter<RotoString>;
+        fn into_iter(self) -> Self::IntoIter {
+            self.0 .0.clone().into_iter()
+        }
+    }
+
+    /*@FN_LIST_JOIN@*/
+
+    include!("harness_join.rs");
+}
+
 fn main() {}
